@@ -664,9 +664,14 @@ fn driver() {
             .arg("model").arg(&name).arg(pb.map(|p| p.to_string()).unwrap_or("none".into()))
             .arg(&ck).arg(per_model_cap.to_string()).output().unwrap();
         let (kind2, _) = classify(&String::from_utf8_lossy(&o2.stderr));
-        if kind2 != kind {
-            vcore::machinery_failure(&format!("model {name}: verdict not reproducible ({kind} then {kind2})"));
+        // The re-run (with a checkpoint file) explores the same space; it must fail again. Which
+        // failure surfaces first may differ (a lost sample can show as a premature end-of-stream in
+        // one schedule and as an oracle panic in another): a second FAILURE reproduces the verdict,
+        // only a second run that PASSES would make the first one untrustworthy.
+        if o2.status.success() {
+            vcore::machinery_failure(&format!("model {name}: verdict not reproducible ({kind}, then the same exploration passed)"));
         }
+        let msg = if kind2 != kind { format!("{msg} [the replay run failed as {kind2}]") } else { msg };
         per_model.push(serde_json::json!({"model": name, "failed": kind, "message": msg, "what": what}));
         rep.violation(vcore::Violation {
             signature: format!("model={name};kind={kind}"),
